@@ -4,7 +4,7 @@ CONSTANTS
   Bodies <- Bodies09_graph_t
   Layouts <- LayNest3
   Cmds <- CmdBuild
-  Cwds <- Cwd0
+  Cwds <- CwdAll
   Orders <- OrdersFirst
   Pres <- PreNone
   Repeat = 1
@@ -12,4 +12,4 @@ CONSTANTS
 INIT Init
 NEXT Next
 CHECK_DEADLOCK FALSE
-INVARIANTS ResolveRelToFile EvalOnce SameValue CycleIsDiagnostic VerdictIffAsserts ExitIffFail EachAssertOnce OneArtifact SecondOutIsError AllOrNothing BatchEqualsSolo Emit
+INVARIANTS ResolveRelToFile EvalOnce EvalOrder SameValue CycleIsDiagnostic VerdictIffAsserts ExitIffFail EachAssertOnce OneArtifact SecondOutIsError AllOrNothing BatchEqualsSolo Emit
